@@ -432,13 +432,77 @@ func LoadGenerator(pk *packages.Package, extByVar map[string]string) *Generator 
 	} else {
 		g.Problems = append(g.Problems, "funcMap literal not found")
 	}
-	// call types
-	if cl, ok := exprs["gorumsCallTypesInfo"].(*ast.CompositeLit); ok {
-		g.CallTypes = g.parseCallTypes(cl)
-	} else {
+	// call types: one literal, or a merge of several literals by a function of the package
+	// that copies every entry of its arguments into one fresh map
+	switch v := exprs["gorumsCallTypesInfo"].(type) {
+	case *ast.CompositeLit:
+		g.CallTypes = g.parseCallTypes(v)
+	case *ast.CallExpr:
+		okMerge := false
+		if id, isID := v.Fun.(*ast.Ident); isID && isMapMerge(g.funcDecl(id.Name)) {
+			okMerge = true
+			seen := map[string]bool{}
+			for _, a := range v.Args {
+				aid, isAID := a.(*ast.Ident)
+				cl, isCL := exprs[func() string {
+					if isAID {
+						return aid.Name
+					}
+					return ""
+				}()].(*ast.CompositeLit)
+				if !isAID || !isCL {
+					okMerge = false
+					break
+				}
+				for _, e := range g.parseCallTypes(cl) {
+					if seen[e.Key] {
+						g.Problems = append(g.Problems, "gorumsCallTypesInfo: key "+e.Key+" occurs in two merged literals (the winner depends on argument order)")
+					}
+					seen[e.Key] = true
+					g.CallTypes = append(g.CallTypes, e)
+				}
+			}
+			sort.Slice(g.CallTypes, func(i, j int) bool { return g.CallTypes[i].Key < g.CallTypes[j].Key })
+		}
+		if !okMerge {
+			g.CallTypes = nil
+			g.Problems = append(g.Problems, "gorumsCallTypesInfo is built by a call that is not a plain merge of map literals")
+		}
+	default:
 		g.Problems = append(g.Problems, "gorumsCallTypesInfo literal not found")
 	}
 	return g
+}
+
+// isMapMerge recognises `func f(ms ...map[K]V) map[K]V { r := make(map[K]V); for _, m := range ms { for k, v := range m { r[k] = v } }; return r }`.
+func isMapMerge(fd *ast.FuncDecl) bool {
+	if fd == nil || fd.Body == nil || fd.Type.Params.NumFields() != 1 || len(fd.Body.List) != 3 {
+		return false
+	}
+	def, ok1 := fd.Body.List[0].(*ast.AssignStmt)
+	outer, ok2 := fd.Body.List[1].(*ast.RangeStmt)
+	ret, ok3 := fd.Body.List[2].(*ast.ReturnStmt)
+	if !ok1 || !ok2 || !ok3 || len(def.Lhs) != 1 || len(ret.Results) != 1 || len(outer.Body.List) != 1 {
+		return false
+	}
+	res := types.ExprString(def.Lhs[0])
+	if ce, ok := def.Rhs[0].(*ast.CallExpr); !ok || types.ExprString(ce.Fun) != "make" {
+		return false
+	}
+	inner, ok := outer.Body.List[0].(*ast.RangeStmt)
+	if !ok || outer.Value == nil || types.ExprString(inner.X) != types.ExprString(outer.Value) || len(inner.Body.List) != 1 || inner.Key == nil || inner.Value == nil {
+		return false
+	}
+	if len(fd.Type.Params.List[0].Names) != 1 || types.ExprString(outer.X) != fd.Type.Params.List[0].Names[0].Name {
+		return false
+	}
+	as, ok := inner.Body.List[0].(*ast.AssignStmt)
+	if !ok || len(as.Lhs) != 1 || len(as.Rhs) != 1 {
+		return false
+	}
+	ix, ok := as.Lhs[0].(*ast.IndexExpr)
+	return ok && types.ExprString(ix.X) == res && types.ExprString(ix.Index) == types.ExprString(inner.Key) &&
+		types.ExprString(as.Rhs[0]) == types.ExprString(inner.Value) && types.ExprString(ret.Results[0]) == res
 }
 
 func (g *Generator) parseCallTypes(cl *ast.CompositeLit) []*CallTypeEntry {
@@ -474,7 +538,26 @@ func (g *Generator) parseCallTypes(cl *ast.CompositeLit) []*CallTypeEntry {
 			if !ok {
 				continue
 			}
-			switch types.ExprString(fkv.Key) {
+			// fields are recognised by type where the type is telling (the predicate, the nested
+			// table, the extension), by name otherwise
+			role := types.ExprString(fkv.Key)
+			if id, isID := fkv.Key.(*ast.Ident); isID && g.Pkg.TypesInfo != nil {
+				if obj := g.Pkg.TypesInfo.Uses[id]; obj != nil {
+					switch t := obj.Type().Underlying().(type) {
+					case *types.Signature:
+						if t.Params().Len() == 1 && t.Results().Len() == 1 {
+							role = "chkFn"
+						}
+					case *types.Map:
+						role = "nestedCallType"
+					case *types.Pointer:
+						if strings.HasSuffix(t.Elem().String(), "ExtensionInfo") {
+							role = "extInfo"
+						}
+					}
+				}
+			}
+			switch role {
 			case "template":
 				e.Template = types.ExprString(fkv.Value)
 			case "extInfo":
